@@ -209,3 +209,31 @@ Example C05_unhashable_refused :
   assemble [(IPush VNil, noloc)] = None /\ assemble [(IPush (VFunc "f" (TFunc [] false [TBool])), noloc)] = None /\
   assemble [(ICast 2, noloc)] = None.
 Proof. vm_compute. repeat split; reflexivity. Qed.
+
+(* For an expression whose ConstantNodes carry hashable values, Compile fails at byte level only for
+   an unknown operator / builtin or for size: a jump offset above 65535 or more than 65535 pool entries. *)
+Theorem C05_compile_bytes_fails_only_when_too_big :
+  forall mapenv c e, consts_hashable e = true -> compile_bytes mapenv c e = None ->
+  compilable e = false \/
+  (exists it, In it (compile_items_program mapenv c e) /\ jump_too_far it = true) \/
+  (max_uint16 < Z.of_nat (List.length (pool_of (compile_items_program mapenv c e) [])))%Z.
+Proof. exact compile_bytes_fails_only_when_too_big. Qed.
+Print Assumptions C05_compile_bytes_fails_only_when_too_big.
+
+Example C05_fails_only_when_too_big_nonvacuous :
+  consts_hashable (c05_big_cond 21843) = true /\ compilable (c05_big_cond 21843) = true /\
+  compile_bytes false CastNone (c05_big_cond 21843) = None.
+Proof. vm_compute. repeat split; reflexivity. Qed.
+
+(* a ConstantNode holding a func value is the other way to fail (hash of unhashable type) *)
+Example C05_unhashable_constant_refused :
+  consts_hashable (EConst ann0 (VFunc "f" (TFunc [] false [TBool]))) = false /\
+  compile_bytes false CastNone (EConst ann0 (VFunc "f" (TFunc [] false [TBool]))) = None.
+Proof. vm_compute. split; reflexivity. Qed.
+
+(* every element of an assembled Bytecode is a byte (0..255) and the pool has at most 65535 entries *)
+Theorem C05_assembled_bytes_are_bytes :
+  forall its p, assemble_items its = Some p ->
+  Forall is_byte (p_bytes p) /\ (Z.of_nat (List.length (p_consts p)) <= max_uint16)%Z.
+Proof. exact assemble_items_bytes. Qed.
+Print Assumptions C05_assembled_bytes_are_bytes.
